@@ -172,3 +172,20 @@ Definition check_fs (impl : fixes) (c : fscase) : verdict :=
                | FsExit _ => false
                end;
      v_guards := guards [(4%Z, guard_F4 impl (fs_ev c))] |}.
+
+(** ** request stream: composite extractor and recovery middleware *)
+Inductive qcase :=
+| QExtract (l : list (option string)) (obs : res string)
+| QRecover (h : handled) (obs : Z).
+
+Definition check_req (impl : fixes) (c : qcase) : verdict :=
+  match c with
+  | QExtract l obs =>
+    {| v_corr := res_eqb String.eqb (composite_extract l) obs;
+       v_prop := true;   (* a panic here is on a request goroutine: the property is about what recovery makes of it *)
+       v_guards := [] |}
+  | QRecover h obs =>
+    {| v_corr := Z.eqb (recovery_mw h) obs;
+       v_prop := match h with Panicked _ => negb (success obs) | Answered _ => true end;
+       v_guards := [] |}
+  end.
